@@ -1273,7 +1273,11 @@ Expr={expr}"""
             Key-word arguments to pass through to `optimize`.
         """
         df = self.optimize(**optimize_kwargs) if optimize else self
-        return new_dd_object(df.dask, df._name, df._meta, df.divisions)
+        # The graph has the keys of the lowered expression
+        expr = df.expr.lower_completely()
+        return new_dd_object(
+            expr.__dask_graph__(), expr._name, expr._meta, expr.divisions
+        )
 
     def to_dask_array(
         self, lengths=None, meta=None, optimize: bool = True, **optimize_kwargs
